@@ -778,3 +778,1016 @@ def corrupt(rng, doc, fmt):
     if k == 7:
         return doc + (doc if rng.random() < 0.5 else rng.choice(["<", "}", "]", "garbage", "\x00x"]))
     return doc[:n // 2].encode("utf-8")[: max(1, n // 2 - 1)].decode("utf-8", "ignore") + "\xff\xfe".encode("latin1").decode("latin1") + doc[n // 2:]
+
+
+# ---------------------------------------------------------------------------------------------------------------
+# histories
+
+P_ONLY, P_STRICT, P_OPAQ, P_NOSTATE, P_WHEN_TRUE, P_NO_NEW, P_STORE_ONLY, P_JSON_NULL = 0x10000, 0x20000, 0x40000, 0x80000, 0x800000, 0x1000000, 0x2010000, 0x4000000
+V_NOSTATE, V_PRESENT, V_MULTI, V_OPER, V_NODFLT, V_NOTFINAL = 1, 2, 4, 8, 0x10, 0x20
+NP_OUTPUT, NP_STORE_ONLY, NP_UPDATE, NP_OPAQ, NP_WITH_OPAQ = 0x01, 0x02, 0x20, 0x40, 0x80
+NC_RPC = "urn:ietf:params:xml:ns:netconf:base:1.0"
+# internal modules whose YIN print parses back; `yang` is the F20/F21 witness and is used only by the hand seed
+YIN_SAFE = ["ietf-yang-metadata", "ietf-inet-types", "ietf-yang-types", "ietf-datastores"]
+
+
+def O(name, *args):
+    out = [name]
+    for a in args:
+        if a is None:
+            out.append("~")
+        elif isinstance(a, bool):
+            out.append("1" if a else "0")
+        elif isinstance(a, int):
+            out.append(str(a))
+        else:
+            out.append(hexs(a))
+    return ":".join(out)
+
+
+def repair(tops, schema, values, rng):
+    """make a generated tree (mostly) valid: leafref / instance-identifier targets, when, must, mandatory, unique, if-feature"""
+    insts = list(all_insts(tops))
+    by_sn = {}
+    for i in insts:
+        by_sn.setdefault(id(i.sn), []).append(i)
+
+    def drop(i):
+        lst = i.parent.children if i.parent is not None else tops
+        if i in lst:
+            lst.remove(i)
+
+    for i in insts:
+        sn = i.sn
+        st = sn.st
+        if st.one("if-feature") is not None:
+            drop(i)
+            continue
+        if sn.kind in ("leaf", "leaf-list"):
+            t, _ = schema.resolve_type(sn.type, sn.mod)
+            if t.arg == "leafref" and t.arg_of("require-instance") != "false":
+                tgt = values._leafref_target(t, sn)
+                cands = [x.value for x in by_sn.get(id(tgt), [])] if tgt is not None else []
+                if cands:
+                    i.value = rng.choice(cands)
+                else:
+                    drop(i)
+                    continue
+            if t.arg == "instance-identifier" and t.arg_of("require-instance") != "false":
+                ps = [p for p in (inst_path(x) for x in insts if x.sn.kind in ("leaf", "container") and x is not i) if p]
+                if ps:
+                    i.value = rng.choice(ps)
+                else:
+                    drop(i)
+                    continue
+        w = st.arg_of("when")
+        if w and i.parent is not None:
+            m = re.fullmatch(r"\.\./([\w:-]+) = '(\w+)'", w)
+            m2 = re.fullmatch(r"\.\./([\w:-]+)", w)
+            nm = (m or m2).group(1).rpartition(":")[2] if (m or m2) else None
+            sib = next((c for c in i.parent.children if c.sn.name == nm), None) if nm else None
+            if m and sib is not None:
+                sib.value = m.group(2)
+            elif not (m2 and sib is not None):
+                drop(i)
+                continue
+        mu = st.arg_of("must")
+        if mu and i.parent is not None:
+            m = re.fullmatch(r"\. != \.\./([\w:-]+)", mu)
+            sib = next((c for c in i.parent.children if m and c.sn.name == m.group(1)), None)
+            if sib is not None and sib.value == i.value:
+                drop(i)
+                continue
+    # mandatory leaves / choices, unique
+    for i in list(all_insts(tops)):
+        sn = i.sn
+        if sn.kind not in ("container", "list"):
+            continue
+        for c in sn.children:
+            if c.kind == "leaf" and c.st.arg_of("mandatory") == "true" and not any(x.sn is c for x in i.children):
+                i.add(Inst(c, rng.choice(values.pools(c)[0])))
+            if c.kind == "choice" and c.st.arg_of("mandatory") == "true":
+                members = c.data_children()
+                if not any(x.sn in members for x in i.children):
+                    lf = next((m for m in members if m.kind == "leaf"), None)
+                    if lf is not None:
+                        i.add(Inst(lf, rng.choice(values.pools(lf)[0])))
+        u = sn.st.arg_of("unique")
+        if u and i.parent is not None:
+            seen = set()
+            for x in [x for x in i.parent.children if x.sn is sn]:
+                for c in list(x.children):
+                    if c.sn.name == u:
+                        if c.value in seen:
+                            x.children.remove(c)
+                        seen.add(c.value)
+    return tops
+
+
+class HistGen:
+    def __init__(self, rng, schemas, texts, yin_texts, tier_thorough=False):
+        self.rng = rng
+        self.schemas = schemas          # list of (Schema, Values) per built-in set
+        self.texts = texts              # list of lists of module YANG text per set
+        self.yin = yin_texts            # same printed as YIN
+        self.thorough = tier_thorough
+
+    # ---- helpers --------------------------------------------------------------------------------------------
+    def begin(self, set_idx, stream):
+        self.set = set_idx
+        self.schema, self.values = self.schemas[set_idx]
+        self.tg = TreeGen(self.schema, self.values, self.rng)
+        self.doc = Doc(self.schema, self.values, self.rng)
+        self.known = {}                 # slot -> list of top instances (our best knowledge)
+        self.stream = stream            # "main" | "f19" | "f60"
+        self.ops = []
+        self.kinds = []
+
+    def emit(self, kind, opstr):
+        self.ops.append(opstr)
+        self.kinds.append(kind)
+
+    def slot(self, live=None):
+        rng = self.rng
+        if live is True and self.known:
+            return rng.choice(list(self.known))
+        if live is False:
+            free = [s for s in range(NSLOT) if s not in self.known]
+            if free:
+                return rng.choice(free)
+        return rng.randrange(NSLOT)
+
+    def nsel(self, s, pred=None, kindch="#", p_path=0.65):
+        rng = self.rng
+        tops = self.known.get(s)
+        if tops and rng.random() < p_path:
+            c = [i for i in all_insts(tops) if pred is None or pred(i)]
+            if c:
+                p = inst_path(rng.choice(c))
+                if p:
+                    return p
+        return "%s%d" % (kindch, rng.randrange(60))
+
+    def rand_sn(self, kinds):
+        c = [n for k in kinds for n in self.schema.by_kind.get(k, [])]
+        return self.rng.choice(c) if c else None
+
+    def schema_data_path(self, sn, p_bad=0.0, last_pred=True):
+        """a data path to (an instance of) schema node sn with generated predicates"""
+        rng = self.rng
+        chain = []
+        n = sn
+        while n is not None:
+            if n.kind not in ("choice", "case", "input", "output"):
+                chain.append(n)
+            n = n.parent
+        chain.reverse()
+        segs = []
+        prev = None
+        for n in chain:
+            seg = n.name if (prev is not None and prev.mod is n.mod) else n.mod.name + ":" + n.name
+            if n.kind == "list" and (n is not sn or last_pred):
+                if n.keys:
+                    for k in n.keys:
+                        ksn = next(x for x in n.data_children() if x.name == k)
+                        q = _quote(self.tg.value(ksn, p_bad))
+                        seg += "[%s=%s]" % (k, q or "'a'")
+                else:
+                    seg += "[%d]" % rng.randrange(1, 4)
+            elif n.kind == "leaf-list" and n is sn and last_pred and rng.random() < 0.7:
+                q = _quote(self.tg.value(n, p_bad))
+                seg += "[.=%s]" % (q or "'1'")
+            segs.append(seg)
+            prev = n
+        return "/" + "/".join(segs)
+
+    def bad_path(self, good):
+        rng = self.rng
+        k = rng.randrange(8)
+        if k == 0:
+            return good + "/nosuch"
+        if k == 1:
+            return good.replace(":", "", 1)
+        if k == 2:
+            return good[:max(1, rng.randrange(len(good)))]
+        if k == 3:
+            return good + "["
+        if k == 4:
+            return "/nomod:" + good.split(":", 1)[-1]
+        if k == 5:
+            return good.lstrip("/")
+        if k == 6:
+            return re.sub(r"='[^']*'", "='", good, count=1) if "='" in good else good + "[.='"
+        return rng.choice(["", "/", "//", "/a:", "[1]", "/lfa:c/li[k='a'][k='b']", "/lfa:c/li[zz='1']", "/*", "/lfa:c/.."])
+
+    # ---- op families ------------------------------------------------------------------------------------------
+    def g_parse(self):
+        rng = self.rng
+        s = self.slot(live=False) if rng.random() < 0.7 else self.slot()
+        fmt = rng.randrange(2)
+        validating = rng.random() < 0.5
+        p_bad = 0.0 if rng.random() < 0.7 else 0.15
+        tops = self.tg.data_tops(p_bad=p_bad, density=rng.choice((0.25, 0.45, 0.7)))
+        if validating or rng.random() < 0.5:
+            repair(tops, self.schema, self.values, rng)
+        if validating:
+            popts = rng.choice((0, 0, P_STRICT, P_OPAQ, P_NOSTATE, P_WHEN_TRUE, P_NO_NEW, P_JSON_NULL, P_STRICT | P_NOSTATE))
+            vopts = rng.choice((V_PRESENT, V_PRESENT, V_PRESENT | V_MULTI, 0, V_PRESENT | V_NOSTATE, V_PRESENT | V_OPER, V_PRESENT | V_NODFLT, V_PRESENT | V_NOTFINAL))
+        else:
+            popts = rng.choice((P_ONLY, P_ONLY, P_ONLY | P_OPAQ, P_ONLY | P_STRICT, P_STORE_ONLY, P_ONLY | P_JSON_NULL, P_STORE_ONLY | P_OPAQ))
+            vopts = 0 if rng.random() < 0.95 else V_PRESENT
+        d = self.doc.json_doc(tops) if fmt else self.doc.xml_doc(tops)
+        bad = rng.random() < 0.22
+        if bad:
+            d = corrupt(rng, d, fmt)
+        self.emit("parse:%s:%s" % ("json" if fmt else "xml", "malformed" if bad else ("invalid-values" if p_bad else "valid")),
+                  O(rng.choice(("px", "pin")), s, fmt, popts, vopts, d.encode("utf-8", "surrogateescape") if d else ""))
+        if not bad and p_bad == 0.0:
+            self.known[s] = tops
+        elif s in self.known and rng.random() < 0.5:
+            pass
+
+    def g_parse_sub(self):
+        rng = self.rng
+        s = self.slot(live=True)
+        tops = self.known.get(s)
+        par = None
+        if tops:
+            c = [i for i in all_insts(tops) if i.sn.kind in ("container", "list")]
+            par = rng.choice(c) if c else None
+        if par is None:
+            return self.g_parse()
+        fmt = rng.randrange(2)
+        kids = self.tg.children(par, par.sn.data_children(), 2, 0.05, 0.5)
+        kids = [k for k in kids if k.sn.name not in par.sn.keys]
+        if fmt:
+            d = "{" + self.doc.json_members(kids, None) + "}"
+        else:
+            d = "".join(self.doc.xml(k) for k in kids)
+        if rng.random() < 0.2:
+            d = corrupt(rng, d, fmt)
+        self.emit("parse:subtree", O("pinp", s, inst_path(par) or "@%d" % rng.randrange(20), fmt,
+                                     rng.choice((P_ONLY, 0, P_ONLY | P_OPAQ, P_STRICT)), rng.choice((0, V_PRESENT)), d.encode("utf-8", "surrogateescape")))
+
+    def g_roundtrip(self):
+        rng = self.rng
+        s, d = self.slot(live=True), self.slot(live=False)
+        fmt = rng.randrange(3)
+        self.emit("roundtrip:%s" % ("xml", "json", "lyb")[fmt], O("rt", s, d, fmt, rng.choice((0, 2, 0x20, 0x10, 4)), rng.choice((P_ONLY, 0, P_STRICT, P_ONLY | P_OPAQ)), rng.choice((0, V_PRESENT))))
+        if s in self.known and s != d:
+            self.known[d] = self.known[s]
+
+    def g_parse_op(self):
+        rng = self.rng
+        kind = rng.choice(("rpc", "action", "notification"))
+        top, op = self.tg.op_tree(kind, p_bad=0.05)
+        if top is None:
+            return self.g_parse()
+        dt = rng.choice((1, 3, 4)) if kind != "notification" else rng.choice((2, 5))
+        self.tg.fill_op(op, output=(dt == 3), p_bad=0.05)
+        s = self.slot(live=False)
+        fmt = 0 if dt >= 4 else rng.randrange(2)
+        if fmt:
+            d = self.doc.json_doc([top])
+        else:
+            d = self.doc.xml(top)
+            if dt == 4:
+                if kind == "action":
+                    d = '<action xmlns="urn:ietf:params:xml:ns:yang:1">' + d + "</action>"
+                d = '<rpc xmlns="%s" message-id="%d">%s</rpc>' % (NC_RPC, rng.randrange(100), d)
+            elif dt == 5:
+                d = '<notification xmlns="urn:ietf:params:xml:ns:netconf:notification:1.0"><eventTime>2024-01-01T00:00:0%dZ</eventTime>%s</notification>' % (rng.randrange(10), d)
+        if rng.random() < 0.25:
+            d = corrupt(rng, d, fmt)
+        self.emit("parse:op:%d" % dt, O("pop", s, fmt, dt, d.encode("utf-8", "surrogateescape")))
+        self.known[s] = [top]
+        if rng.random() < 0.4:
+            self.emit("validate:op", O("vo", s, inst_path(op) or "#0", self.slot(), min(dt, 3) if dt < 4 else (1 if dt == 4 else 2), rng.randrange(2)))
+
+    def g_new_path(self):
+        rng = self.rng
+        s = self.slot(live=True) if rng.random() < 0.75 else self.slot()
+        sn = self.rand_sn(("leaf", "leaf", "leaf-list", "container", "list", "anydata", "anyxml"))
+        bad_val = rng.random() < 0.2
+        path = self.schema_data_path(sn, p_bad=0.1 if rng.random() < 0.2 else 0.0)
+        if rng.random() < 0.12:
+            path = self.bad_path(path)
+        val = None
+        if sn.kind in ("leaf", "leaf-list"):
+            val = self.tg.value(sn, 1.0 if bad_val else 0.0)
+        elif sn.kind in ("anydata", "anyxml"):
+            val = rng.choice(("txt", "<x>1</x>", '{"x":1}', "", "<a><b>", '{"lfa:top":"q"}'))
+        opts = rng.choice((0, 0, 0, NP_UPDATE, NP_UPDATE, NP_OPAQ, NP_UPDATE | NP_OPAQ, NP_STORE_ONLY, NP_WITH_OPAQ, NP_OUTPUT))
+        if sn.kind in ("anydata", "anyxml") and self.stream != "f60":
+            opts &= ~NP_UPDATE          # F60: updating an existing any node keeps the caller's pointer
+        if self.stream == "f60" and sn.kind in ("anydata", "anyxml"):
+            opts |= NP_UPDATE
+        if rng.random() < 0.8 or sn.kind in ("container", "list"):
+            self.emit("new_path:%s:%s" % (sn.kind, "badval" if bad_val else "ok"), O("np", s, opts, path, val))
+        else:
+            par = self.nsel(s) if s in self.known else None
+            self.emit("new_path2:%s" % sn.kind, O("np2", s, par, opts, path, val if val is not None else "", rng.randrange(1, 4)))
+        self.known.setdefault(s, self.known.get(s, []))
+
+    def _parent_for(self, s, child_kinds):
+        """(selector, parent schema node) of an inner node in slot s, or (None, None) = top level"""
+        rng = self.rng
+        tops = self.known.get(s)
+        if tops and rng.random() < 0.8:
+            c = [i for i in all_insts(tops) if i.sn.kind in ("container", "list", "rpc", "action", "notification")
+                 and any(x.kind in child_kinds for x in i.sn.data_children())]
+            if c:
+                i = rng.choice(c)
+                p = inst_path(i)
+                if p:
+                    return p, i.sn
+        return None, None
+
+    def g_new_node(self):
+        rng = self.rng
+        s = self.slot(live=True) if rng.random() < 0.8 else self.slot()
+        fam = rng.choice(("ni", "nl", "nlv", "nt", "nt", "nt", "ntb", "na", "nad", "no"))
+        kinds = {"ni": ("container", "rpc", "notification", "action"), "nl": ("list",), "nlv": ("list",), "nt": ("leaf", "leaf-list"), "ntb": ("leaf", "leaf-list"),
+                 "na": ("anydata", "anyxml"), "nad": ("anydata", "anyxml"), "no": ("leaf", "container")}[fam]
+        psel, psn = self._parent_for(s, kinds)
+        if psn is not None:
+            cands = [x for x in psn.data_children() if x.kind in kinds]
+        else:
+            cands = [x for x in self.schema.tops() if x.kind in kinds]
+            if not cands:
+                psel, cands = "@%d" % rng.randrange(30), [n for k in kinds for n in self.schema.by_kind.get(k, [])]
+        if not cands:
+            return self.g_new_path()
+        sn = rng.choice(cands)
+        name = sn.name
+        mod = sn.mod.name if (psel is None or rng.random() < 0.5) else None
+        wrong = rng.random() < 0.08
+        if wrong:
+            name = rng.choice(("nosuch", "", sn.name + "x", (self.rand_sn(("container", "leaf", "list")) or sn).name))
+        if rng.random() < 0.04:
+            mod = "nomod"
+        bad = rng.random() < 0.25
+        kd = "new:%s:%s" % (fam, "wrongname" if wrong else ("bad" if bad else "ok"))
+        if fam == "ni":
+            self.emit(kd, O("ni", s, psel, mod, name, rng.random() < 0.1))
+        elif fam == "nl":
+            pred = ""
+            for k in sn.keys:
+                ksn = next(x for x in sn.data_children() if x.name == k)
+                pred += "[%s=%s]" % (k, _quote(self.tg.value(ksn, 0.7 if bad else 0.0)) or "'a'")
+            if bad and rng.random() < 0.4:
+                pred = rng.choice(("", "[", pred + "[zz='1']", pred[:-1], "[.='a']", pred + pred))
+            self.emit(kd, O("nl", s, psel, mod, name, rng.choice((0, 0, 2)), pred if sn.keys or bad else None))
+        elif fam == "nlv":
+            ks = []
+            for k in sn.keys[:3]:
+                ksn = next(x for x in sn.data_children() if x.name == k)
+                ks.append(self.tg.value(ksn, 0.7 if bad else 0.0))
+            self.emit(kd, O("nlv", s, psel, mod, name, rng.choice((0, 0, 2)), *ks))
+        elif fam == "nt":
+            self.emit(kd, O("nt", s, psel, mod, name, rng.choice((0, 0, 0, 2, 1)), self.tg.value(sn, 1.0 if bad else 0.0) if not (bad and rng.random() < 0.1) else None))
+        elif fam == "ntb":
+            v = self.lyb_value(sn, bad)
+            self.emit(kd, O("ntb", s, psel, mod, name, rng.choice((0, 0, 2)), v, rng.random() < 0.15))
+        elif fam == "na":
+            v = rng.choice(("plain text", "<x xmlns=\"urn:q\"><y>1</y></x>", '{"x":{"y":[1,2]}}', "", "<a><b></a>", '{"x":', '{"%s:top":"v"}' % self.schema.tops()[0].mod.name, "&bogus;"))
+            self.emit(kd, O("na", s, psel, mod, name, rng.randrange(1, 4), rng.random() < 0.6, v))
+        elif fam == "nad":
+            self.emit(kd, O("nad", s, psel, mod, name, rng.random() < 0.6, self.slot(live=True)))
+        else:
+            self.emit(kd, O("no", s, psel if rng.random() < 0.7 else None, sn.mod.name if rng.random() < 0.8 else "unknown-mod", name if rng.random() < 0.6 else "opq",
+                            rng.choice((None, "", "v", "a&b")), rng.choice((None, sn.mod.name, "pfx")), rng.random() < 0.4))
+
+    def lyb_value(self, sn, bad):
+        """value in the binary (LYB) value format of lyd_new_term_bin / lyd_change_term_bin"""
+        rng = self.rng
+        base = self.values.base(sn)
+        v = self.tg.value(sn, 0.0)
+        try:
+            if base in INT_RANGE:
+                size = {"8": 1, "6": 2, "2": 4, "4": 8}[base[-1]]
+                b = int(v).to_bytes(size, "little", signed=base.startswith("int"))
+            elif base == "boolean":
+                b = b"\x01" if v == "true" else b"\x00"
+            elif base == "binary":
+                b = base64.b64decode(v)
+            elif base == "empty":
+                b = b""
+            elif base == "bits":
+                b = bytes([rng.randrange(8)])
+            elif base == "decimal64":
+                b = int(float(v) * 100).to_bytes(8, "little", signed=True)
+            else:
+                b = v.encode()
+        except Exception:
+            b = v.encode()
+        if bad:
+            b = rng.choice((b + b"\x00", b[:-1], b"", b * 3 + b"\xff", bytes(rng.randrange(256) for _ in range(rng.randrange(1, 12)))))
+        return b
+
+    def g_meta(self):
+        rng = self.rng
+        s = self.slot(live=True)
+        k = rng.randrange(6)
+        anns = [(m.name, a) for m in self.schema.mods.values() for a in m.annotations]
+        if k <= 2:
+            if anns and rng.random() < 0.8:
+                m, a = rng.choice(anns)
+                val = rng.choice(("n", "5", "300", "", "text", "-1")) if a != "cnt" else rng.choice(("1", "255", "256", "x", ""))
+            else:
+                m, a, val = rng.choice((("yang", "operation", "create"), ("yang", "operation", "bogus"), ("yang", "insert", "first"), ("nomod", "x", "1"), ("yang", "nosuch", "1"), ("yang", "orig-default", "true")))
+            style = rng.randrange(3)
+            self.emit("meta:new", O("nm", s, self.nsel(s), m if style != 1 else None, a if style == 0 else m + ":" + a, val, rng.choice((0, 0, 0x10, 2))))
+        elif k == 3:
+            self.emit("meta:change", O("cm", s, self.nsel(s, kindch="^", p_path=0.2), rng.randrange(4), rng.choice(("n2", "7", "999", "", "delete", "none", "x y"))))
+        elif k == 4:
+            self.emit("meta:free", O("fm", s, self.nsel(s, kindch="^", p_path=0.2), rng.randrange(4)))
+        else:
+            self.emit("attr:new", O("nat", s, "%s%d" % (rng.choice("%%%#"), rng.randrange(30)), rng.choice((None, "lfa", "urn:x", "nomod")),
+                                    rng.choice(("at", "p:at", "xml:lang", "", "a:b:c", "1x")), rng.choice((None, "", "v", "p:v")), rng.random() < 0.4))
+
+    def g_change(self):
+        rng = self.rng
+        s = self.slot(live=True)
+        f19 = self.stream == "f19" and rng.random() < 0.7
+        tops = self.known.get(s)
+        target, sn = None, None
+        if tops and rng.random() < 0.75:
+            if f19:
+                c = [i for i in all_insts(tops) if i.sn.kind == "leaf-list" or (i.sn.kind == "leaf" and i.parent is not None and i.sn.name in i.parent.sn.keys)]
+            else:
+                c = [i for i in all_insts(tops) if i.sn.kind == "leaf" and not (i.parent is not None and i.sn.name in i.parent.sn.keys)]
+            if c:
+                i = rng.choice(c)
+                target, sn = inst_path(i), i.sn
+        if target is None:
+            target = "%s%d" % ("*" if f19 else "$", rng.randrange(40))
+        bad = rng.random() < 0.25
+        if sn is not None:
+            val = self.tg.value(sn, 1.0 if bad else 0.0)
+        else:
+            val = rng.choice(("1", "2", "3", "5", "7", "a", "b", "x", "true", "one", "q", "lfa:id-a", "", "zz", "300", "-1", "hi", "p", "lo", "k1", "lfd:k2", "1.5"))
+        if sn is not None and rng.random() < 0.12:
+            self.emit("change_term_bin:%s" % ("llist-or-key" if f19 else "leaf"), O("ctb", s, target, self.lyb_value(sn, bad), f19))
+        else:
+            self.emit("change_term:%s:%s" % ("llist-or-key" if f19 else "leaf", "bad" if bad else "ok"), O("ct", s, target, val, f19))
+
+    def g_dup(self):
+        rng = self.rng
+        a = self.slot(live=True)
+        opts = rng.choice((0, 1, 1, 1, 1 | 8, 1 | 2, 4, 1 | 4, 1 | 4 | 8, 1 | 0x40, 1 | 0x10, 1 | 0x20, 8))
+        nsel = self.nsel(a)
+        if rng.random() < 0.55:
+            b = self.slot(live=False)
+            self.emit("dup:%s:noparent" % "single", O(rng.choice(("ds", "ds", "dd")), a, nsel, b, None, opts))
+            if a in self.known and nsel.startswith("/") and nsel.count("/") == 1:
+                self.known.setdefault(b, self.known[a])
+        else:
+            b = self.slot(live=True)
+            # a fitting parent: the same path (minus the last segment) in the other tree, or any inner node with WITH_PARENTS
+            if nsel.startswith("/") and nsel.count("/") > 1 and rng.random() < 0.8:
+                psel = nsel.rsplit("/", 1)[0] if rng.random() < 0.7 else nsel.split("/", 2)[0] + "/" + nsel.split("/", 2)[1]
+                if psel != nsel.rsplit("/", 1)[0]:
+                    opts |= 4
+            else:
+                psel = "@%d" % rng.randrange(20)
+                opts |= 4 if rng.random() < 0.7 else 0
+            self.emit("dup:into-parent", O(rng.choice(("ds", "ds", "dd")), a, nsel, b, psel, opts))
+
+    def g_merge(self):
+        rng = self.rng
+        a, b = self.slot(), self.slot(live=True)
+        if a == b:
+            a = (a + 1) % NSLOT
+        opts = rng.choice((0, 0, 1, 1, 2, 4, 3, 5, 6, 7))
+        self.emit("merge:%s" % ("destruct" if opts & 1 else "copy"), O(rng.choice(("mt", "ms", "ms")), a, b, opts))
+        if opts & 1:
+            self.known.pop(b, None)
+        self.known.setdefault(a, self.known.get(b, []))
+
+    def g_diff(self):
+        rng = self.rng
+        k = rng.randrange(7)
+        if k <= 2:
+            a, b = self.slot(live=True), self.slot(live=True)
+            d = self.slot(live=False)
+            self.emit("diff:make", O(rng.choice(("df", "df", "dft")), a, b, d, rng.randrange(2)))
+            self.diffslot = d
+            self.known.setdefault(d, [])
+            if rng.random() < 0.6 and d not in (a, b):
+                # the typical use: apply the diff to a copy of the first tree
+                c = self.slot(live=False)
+                if c not in (a, b, d):
+                    self.emit("dup:siblings", O("dd", a, "#0", c, None, 1 | 8))
+                    self.emit("diff:apply", O("da", c, d))
+                    self.known.setdefault(c, self.known.get(a, []))
+        elif k == 3:
+            self.emit("diff:apply", O("da", self.slot(live=True), getattr(self, "diffslot", self.slot(live=True))))
+        elif k == 4:
+            e = self.slot(live=False)
+            self.emit("diff:reverse", O("dr", getattr(self, "diffslot", self.slot(live=True)), e))
+            self.known.setdefault(e, [])
+        elif k == 5:
+            self.emit("diff:merge", O("dm", getattr(self, "diffslot", self.slot(live=True)), self.slot(live=True), rng.randrange(2)))
+        else:
+            self.emit("compare", O("cmp", self.slot(live=True), self.slot(live=True), rng.randrange(4)))
+
+    def g_validate(self):
+        rng = self.rng
+        s = self.slot(live=True) if rng.random() < 0.9 else self.slot()
+        k = rng.randrange(6)
+        vopts = rng.choice((V_PRESENT, V_PRESENT, V_PRESENT | V_MULTI, V_PRESENT | V_NOSTATE, V_PRESENT | V_OPER, V_PRESENT | V_NODFLT, V_PRESENT | V_NOTFINAL, 0, V_MULTI))
+        if k <= 1:
+            self.emit("validate:all", O("va", s, vopts, rng.random() < 0.4))
+        elif k == 2:
+            self.emit("validate:module", O("vm", s, rng.choice(list(self.schema.mods) + ["nomod", "ietf-yang-library"]), vopts & ~V_PRESENT, rng.random() < 0.4))
+        elif k == 3:
+            self.emit("implicit:all", O("im", s, rng.choice((0, 0, 1, 2, 8, 4, 9)), rng.random() < 0.4))
+        elif k == 4:
+            self.emit("implicit:tree", O("imt", s, self.nsel(s, lambda i: i.sn.kind in ("container", "list"), "@"), rng.choice((0, 1, 8)), rng.random() < 0.3))
+        else:
+            self.emit("leafref-link", O("ll", s))
+
+    def g_free(self):
+        rng = self.rng
+        s = self.slot(live=True)
+        k = rng.randrange(10)
+        notkey = lambda i: not (i.parent is not None and i.sn.name in i.parent.sn.keys) or rng.random() < 0.1
+        if k <= 3:
+            self.emit("free:subtree", O("ft", s, self.nsel(s, notkey)))
+        elif k <= 6:
+            self.emit("unlink:subtree", O("ul", s, self.nsel(s, notkey), rng.random() < 0.6))
+        elif k == 7:
+            self.emit("free:siblings", O("fs", s, self.nsel(s, lambda i: i.parent is not None and i.parent.parent is not None)))
+        elif k == 8:
+            self.emit("unlink:siblings", O("us", s, self.nsel(s, notkey)))
+        else:
+            self.emit("free:all", O("fa", s))
+            self.known.pop(s, None)
+
+    def g_insert(self):
+        rng = self.rng
+        a, b = self.slot(live=True), self.slot(live=True)
+        fam = rng.choice(("ic", "ic", "is", "is", "ib", "ia"))
+        ta, tb = self.known.get(a), self.known.get(b)
+        dsel = nsel = None
+        if ta and tb and rng.random() < 0.8:
+            nb = [i for i in all_insts(tb) if not (i.parent is not None and i.sn.name in i.parent.sn.keys)]
+            if fam in ("ib", "ia"):
+                nb = [i for i in nb if i.sn.user] or nb
+            rng.shuffle(nb)
+            for n in nb[:12]:
+                if fam == "ic":
+                    c = [i for i in all_insts(ta) if i.sn is n.sn.data_parent()]
+                elif fam == "is":
+                    c = [i for i in all_insts(ta) if i.sn.data_parent() is n.sn.data_parent() and i is not n]
+                else:
+                    c = [i for i in all_insts(ta) if i.sn is n.sn and i is not n]
+                if c:
+                    dsel, nsel = inst_path(rng.choice(c)), inst_path(n)
+                    break
+        if not dsel or not nsel:
+            dsel, nsel = "%s%d" % ("@" if fam == "ic" else "#", rng.randrange(40)), "#%d" % rng.randrange(40)
+        self.emit("insert:%s" % fam, O(fam, a, dsel, b, nsel))
+
+    def xpaths(self):
+        rng = self.rng
+        sn = self.rand_sn(("leaf", "leaf-list", "list", "container"))
+        p = self.schema_data_path(sn)
+        plain = self.schema_data_path(sn, last_pred=False)
+        good = [p, plain, plain + "/*", "/" + plain.split("/")[1] + "//*", "count(%s) > 1" % plain, "%s[1]" % plain, "%s[last()]" % plain, "//" + sn.name,
+                "%s | %s" % (plain, "/" + plain.split("/")[1]), "string(%s)" % plain, "..", ".", "*", "//*[. = 'a']", "%s/.." % plain, "boolean(%s)" % plain,
+                "%s[. > 2]" % plain, "name(%s)" % plain, "deref(%s)" % plain, "current()/..", "re-match(string(%s), '[a-z]+')" % plain, "descendant-or-self::node()",
+                "%s/ancestor::*" % plain, "%s/following-sibling::*" % plain, "%s[position() mod 2 = 1]" % plain, "sum(%s) + 1" % plain, "not(%s)" % plain]
+        bad = [plain + "/[", "//", "count(", "/nomod:x", "1 +", plain + "[k='a'", "foo()", "$var", ")", plain + "[.=]", "", "/" + sn.name, plain + "/nosuch",
+               "string(1, 2)", "'unterminated", "count(1)", "1 div", "..//", "%s[", "deref()"]
+        return good, bad
+
+    def g_find(self):
+        rng = self.rng
+        s = self.slot(live=True)
+        k = rng.randrange(12)
+        good, bad = self.xpaths()
+        isbad = rng.random() < 0.25
+        e = rng.choice(bad if isbad else good)
+        if k <= 1:
+            p = good[0] if not isbad else self.bad_path(good[0])
+            self.emit("find:path:%s" % ("bad" if isbad else "ok"), O("fp", s, self.nsel(s), p, rng.random() < 0.1))
+        elif k <= 3:
+            self.emit("find:xpath:%s" % ("bad" if isbad else "ok"), O("fx", s, self.nsel(s), e))
+        elif k == 4:
+            self.emit("eval:xpath:%s" % ("bad" if isbad else "ok"), O("ex", s, self.nsel(s), e))
+        elif k == 5:
+            sn = self.rand_sn(("leaf-list", "list", "leaf"))
+            if sn.kind == "list":
+                v = "".join("[%s=%s]" % (kk, _quote(self.tg.value(next(x for x in sn.data_children() if x.name == kk), 0.2)) or "'a'") for kk in sn.keys)
+            else:
+                v = self.tg.value(sn, 0.2)
+            self.emit("find:sibling_val", O("fv", s, self.nsel(s, lambda i: i.sn.data_parent() is sn.data_parent()), sn.spath(), v if rng.random() < 0.95 else None))
+        elif k == 6:
+            self.emit("path", O("pth", s, self.nsel(s), rng.randrange(2)))
+        elif k == 7:
+            self.emit("find:dup_inst", O("di", s, self.nsel(s)))
+        elif k == 8:
+            self.emit("any:value_str", O("avs", s, self.nsel(s, lambda i: i.sn.kind in ("anydata", "anyxml"), "!")))
+        elif k <= 10:
+            self.emit("print:%s" % ("xml", "json", "lyb")[k % 3], O("pr", s, rng.randrange(3), rng.choice((0, 2, 4, 0x10, 0x20, 0x40, 0x80, 0x22))))
+        else:
+            self.emit("print:subtree", O("prn", s, self.nsel(s), rng.randrange(3), rng.choice((0, 2, 0x20))))
+
+    def g_any_copy(self):
+        rng = self.rng
+        a = self.slot(live=True)
+        isany = lambda i: i.sn.kind in ("anydata", "anyxml")
+        if rng.random() < 0.5:
+            self.emit("any:copy", O("ac", a, self.nsel(a, isany, "!"), self.slot(live=True), self.nsel(a, isany, "!")))
+        else:
+            self.emit("any:copy_str", O("acs", a, self.nsel(a, isany, "!"), rng.randrange(1, 4), rng.choice((None, "t", "<x/>", '{"a":1}', "<a>", ""))))
+
+    def g_misc(self):
+        rng = self.rng
+        k = rng.randrange(4)
+        if k == 0:
+            self.emit("err_clean", "ec")
+        elif k == 1:
+            self.emit("dict:insert_zc", O("zc", rng.choice(("a", "description", "x" * 50, "", "lfa", "žž")), rng.randrange(1, 5)))
+        else:
+            sn = self.rand_sn(("leaf", "leaf-list"))
+            bad = rng.random() < 0.3
+            s = self.slot(live=True)
+            if rng.random() < 0.5:
+                self.emit("value_validate:%s" % ("bad" if bad else "ok"), O("vv", sn.spath(), self.tg.value(sn, 1.0 if bad else 0.0)))
+            else:
+                self.emit("value_validate:ctx:%s" % ("bad" if bad else "ok"), O("vv", sn.spath(), self.tg.value(sn, 1.0 if bad else 0.0), s, self.nsel(s)))
+
+    BAD_EDITS = [("type int8", "type nosuch"), ('path "../sl"', 'path "../nosuch"'), ("default 50", "default 500"), ("base base-id", "base nope"), ('key "k"', 'key "zz"'),
+                 ("import ietf-yang-metadata", "import nosuch-mod"), ('range "0..100"', 'range "100..0"'), ('pattern "[a-z]*"', 'pattern "[a-"'),
+                 ("when \"../a = 'on'\"", 'when "../a = "'), ("fraction-digits 2", "fraction-digits 20"), ("enum two {value 5;}", "enum two {value 0;}"),
+                 ('unique "idx"', 'unique "nope"'), ('augment "/b:sys"', 'augment "/b:nosuch"'), ("import lfb", "import lfz"), ("prefix a;", "prefix a; prefix b;"),
+                 ("leaf a {", "leaf sl {"), ("yang-version 1.1;", "yang-version 3;"), ("identity id-c {base id-a;}", "identity id-c {base id-c;}"),
+                 ("default c2;", "default c9;"), ('must ". != ../a"', 'must ". != ../"'), ("mandatory true", "mandatory maybe"), ("if-feature ft", "if-feature nofeat"),
+                 ("ordered-by user", "ordered-by nobody"), ("bit b5 {position 5;}", "bit b5 {position 0;}"), ("type leafref {path \"../if/name\";}", "type leafref {path \"../if/name\"; require-instance 7;}"),
+                 ('key "x y"', 'key "x x"'), ("length \"1..4\"", "length \"4..1\""), ("max-elements 6", "max-elements 0"), ("config false;", "config false; config true;"),
+                 ("type binary;", "type binary {length \"x\";}"), ("type empty;", "type empty; default 1;")]
+
+    def g_schema(self, early):
+        rng = self.rng
+        k = rng.randrange(10)
+        other = [i for i in range(NSETS) if i != self.set]
+        if k <= 4:
+            # a broken variant of a module (of another set: new to this context; or of this set: name clash)
+            si = rng.choice(other) if rng.random() < 0.7 else self.set
+            yin = rng.random() < 0.3
+            texts = self.yin[si] if yin else self.texts[si]
+            t = texts[0]
+            how = rng.randrange(4)
+            if how <= 1 and not yin:
+                edits = [e for e in self.BAD_EDITS if e[0] in t]
+                if edits:
+                    a, b = rng.choice(edits)
+                    t = t.replace(a, b, 1)
+                else:
+                    t = t[:rng.randrange(len(t))]
+            elif how == 2:
+                t = t[:rng.randrange(len(t))]
+            else:
+                t = corrupt(rng, t, 0)
+            self.emit("schema:bad:%s" % ("yin" if yin else "yang"), O("ymod", yin, t.encode("utf-8", "surrogateescape")))
+        elif k == 5:
+            self.emit("schema:load-unknown", O("lmod", rng.choice(("nosuch-module", "ietf-interfaces", "lfz", "")), rng.choice((None, "2020-01-01", "bad"))))
+        elif k == 6:
+            self.emit("schema:load-internal", O("lmod", rng.choice(("ietf-inet-types", "ietf-yang-types", "ietf-datastores", "yang")), rng.choice((None, None, "1999-01-01"))))
+        elif k == 7:
+            m = rng.choice(list(self.schema.mods.values()))
+            feats = rng.choice((None, "", "*", ",".join(m.features) if m.features else "nofeat", "nofeat", "ft,ft"))
+            self.emit("schema:set_implemented", O("impl", rng.choice((m.name, m.name, "ietf-inet-types", "nomod")), feats))
+        elif k == 8:
+            self.emit("schema:reparse-own", O("yinself", rng.choice(list(self.schema.mods) + YIN_SAFE), rng.randrange(2)))
+        else:
+            # a good module of another set: from now on data of both sets can be built
+            si = rng.choice(other)
+            ok = True
+            for j, t in enumerate(self.texts[si]):
+                yin = rng.random() < 0.3
+                self.emit("schema:good:%s" % ("yin" if yin else "yang"), O("ymod", yin, (self.yin[si][j] if yin else t).encode()))
+            if ok and rng.random() < 0.5:
+                self.set = si
+                self.schema, self.values = self.schemas[si]
+                self.tg = TreeGen(self.schema, self.values, rng)
+                self.doc = Doc(self.schema, self.values, rng)
+        self.known = {}
+        self.diffslot = 0
+
+    FAMILIES = [("g_parse", 14), ("g_parse_sub", 3), ("g_roundtrip", 3), ("g_parse_op", 3), ("g_new_path", 10), ("g_new_node", 13), ("g_meta", 4), ("g_change", 7),
+                ("g_dup", 7), ("g_merge", 6), ("g_diff", 7), ("g_validate", 6), ("g_free", 9), ("g_insert", 6), ("g_find", 11), ("g_any_copy", 2), ("g_misc", 3)]
+
+    def history(self, stream="main", nops=None):
+        rng = self.rng
+        self.begin(rng.randrange(NSETS), stream)
+        self.diffslot = 0
+        nops = nops or rng.choice((4, 8, 12, 16, 20, 24, 32, 40))
+        set0 = self.set
+        ctxopts = rng.choice((0, 0, 0, 4, 4, 4, 0x400 | 4, 0x40, 0x200 | 4, 0x02 | 4))
+        if rng.random() < 0.15:
+            for _ in range(rng.randrange(1, 4)):
+                self.g_schema(True)
+        fams = [f for f, w in self.FAMILIES for _ in range(w)]
+        if stream == "f19":
+            fams += ["g_change"] * 25
+        if stream == "f60":
+            fams += ["g_new_path"] * 25
+        # start with something alive
+        self.g_parse()
+        while len(self.ops) < nops:
+            if rng.random() < 0.012:
+                self.g_schema(False)
+                self.g_parse()
+                continue
+            if not self.known:
+                rng.choice((self.g_parse, self.g_parse, self.g_new_path, self.g_parse_op))()
+                continue
+            getattr(self, rng.choice(fams))()
+        return set0, ctxopts, list(self.ops), list(self.kinds)
+
+
+# ---------------------------------------------------------------------------------------------------------------
+# hand seeds, running, laws, classification
+
+def seed_f19(i=0):
+    """minimal history of F19: children sl=1, sl=2, a, b; change sl=1 to 5; free that node; look the old value up"""
+    return 0, 0, [O("np", 0, 0, "/lfa:c/sl", "1"), O("np", 0, 0, "/lfa:c/sl", "2"), O("np", 0, 0, "/lfa:c/a", "x"), O("np", 0, 0, "/lfa:c/b", "x"),
+                  O("ct", 0, "/lfa:c/sl[.='1']", "5", 1), O("ft", 0, "/lfa:c/sl[.='5']")]
+
+
+def seed_f19_key():
+    return 0, 0, [O("np", 0, 0, "/lfa:c/li[k='a']/v", "1"), O("np", 0, 0, "/lfa:c/li[k='b']/v", "2"), O("np", 0, 0, "/lfa:c/a", "x"), O("np", 0, 0, "/lfa:c/b", "x"),
+                  O("ct", 0, "/lfa:c/li[k='a']/k", "q", 1), O("ft", 0, "/lfa:c/li[k='q']")]
+
+
+def seed_f21():
+    """failed YIN parse of libyang's own YIN print of the internal module `yang` (F20) leaves "description" in the dictionary"""
+    return 0, FORCE_LSAN, [O("yinself", "yang", 1)]
+
+
+def seed_f60():
+    return 0, 0, [O("np", 0, 0, "/lfa:c/ax", "aaa"), O("np", 0, NP_UPDATE, "/lfa:c/ax", "bbb"), O("pr", 0, 0, 0)]
+
+
+def hist_line(i, set_idx, ctxopts, ops):
+    return "%d life hist %d %d %s" % (i, set_idx, ctxopts, ";".join(ops))
+
+
+def parse_reply(r):
+    if not r or r[0] != "ok":
+        return None
+    d = {}
+    for t in r[1:]:
+        k, _, v = t.partition("=")
+        d[k] = v
+    return d
+
+
+def decode_ops(line):
+    """[(name, [args as str/bytes])] of a history request line"""
+    toks = line.split()
+    if len(toks) < 6:
+        return []
+    out = []
+    for o in toks[5].split(";"):
+        p = o.split(":")
+        args = []
+        for a in p[1:]:
+            if a == "~":
+                args.append(None)
+            elif a == "-":
+                args.append(b"")
+            else:
+                try:
+                    args.append(bytes.fromhex(a) if (len(a) % 2 == 0 and re.fullmatch(r"[0-9a-f]+", a) and not a.isdigit()) else a)
+                except ValueError:
+                    args.append(a)
+        out.append((p[0], args, p[1:]))
+    return out
+
+
+ANY_NAMES = (b"/ad", b"/ax")
+
+
+def _has_f19_op(line):
+    for name, args, raw in decode_ops(line):
+        if name in ("ct", "ctb") and len(raw) >= 4 and raw[3] == "1":
+            return True
+    return False
+
+
+def _has_f60_op(line):
+    for name, args, raw in decode_ops(line):
+        if name == "np" and len(raw) >= 3 and raw[1].isdigit() and int(raw[1]) & NP_UPDATE:
+            try:
+                path = bytes.fromhex(raw[2])
+            except ValueError:
+                continue
+            if path.endswith(ANY_NAMES):
+                return True
+        if name == "np2" and len(raw) >= 4 and raw[2].isdigit() and int(raw[2]) & NP_UPDATE:
+            try:
+                path = bytes.fromhex(raw[3])
+            except ValueError:
+                continue
+            if path.endswith(ANY_NAMES):
+                return True
+    return False
+
+
+def _only_failed_yin_witness(line):
+    ops = decode_ops(line)
+    return len(ops) == 1 and ops[0][0] == "yinself" and ops[0][2] == [hexs("yang"), "1"]
+
+
+def classify(component, what, case):
+    """id of the known finding this failing case is an instance of, or None.  Deliberately narrow: a different leak /
+    use-after-free must stay unclassified."""
+    if component != "life" or not isinstance(case, dict):
+        return None
+    line = case.get("line") or ""
+    if case.get("crash"):
+        err = case.get("stderr", "")
+        m = re.search(r"VERIF ERROR: AddressSanitizer: (\S+) frames=(\S*)(?: freedby=(\S*))?", err)
+        if not m:
+            return None
+        kind, frames, freedby = m.group(1), m.group(2).split(","), (m.group(3) or "").split(",")
+        if kind == "heap-use-after-free" and _has_f19_op(line) and "lyd_hash_table_val_equal" in frames and \
+                any(f.startswith("lyht_find") or f.startswith("lyht_remove") or f.startswith("lyht_insert") for f in frames) and \
+                any(f.startswith(("lyd_free_", "lyd_unlink")) for f in freedby):
+            # the stale record left by the value change: the freed node is read through its parent's children hash table
+            return "F19"
+        if kind == "heap-use-after-free" and _has_f60_op(line) and "tmp_free" in freedby:
+            # the library kept the caller's value pointer of a lyd_new_path(UPDATE) on an existing anydata/anyxml node
+            return "F60"
+        return None
+    if _only_failed_yin_witness(line) and what.startswith(("failed schema load changed the dictionary", "dictionary warning at ly_ctx_destroy", "memory leak")):
+        return "F21"
+    return None
+
+
+LAWS = [("drec", "dictionary records differ from the baseline after all trees were freed"),
+        ("dref", "dictionary reference counts differ from the baseline after all trees were freed"),
+        ("mid", "dictionary differs from the baseline at an intermediate all-freed point"),
+        ("warn", "dictionary warning at ly_ctx_destroy (string not freed)"),
+        ("leak", "memory leak reported by LeakSanitizer"),
+        ("onn", "a failing call left a non-NULL output"),
+        ("integ", "node links broken after an operation (integrity walk)"),
+        ("eint", "internal error reported by the library")]
+
+
+def evaluate(cx, line, rep, kinds=None):
+    """laws on one reply; returns True when the history was clean"""
+    d = parse_reply(rep)
+    if d is None:
+        if rep and rep[:2] in (["err", "Crash"], ["err", "Timeout"]):
+            return False        # recorded by run_impl
+        cx.fail("life", "harness refused the history: %s" % " ".join(rep or ["no reply"]), {"line": line, "reply": rep})
+        return False
+    clean = True
+    case = {"line": line, "reply": " ".join(rep)}
+    if d.get("sfail", "-") != "-":
+        clean = False
+        cx.fail("life", "failed schema load changed the dictionary (ops %s)" % d["sfail"], case)
+    for key, text in LAWS:
+        if d.get(key, "0") not in ("0", "-"):
+            clean = False
+            cx.fail("life", "%s [%s=%s]" % (text, key, d[key]), case)
+    if d.get("lost", "0") != "0":
+        # recorded, not a C17 law: an instance that its own sibling lookup does not find (C04 territory)
+        cx.dist["life:note:lookup-miss"] += 1
+    return clean
+
+
+def _bucket(n):
+    for b in (4, 8, 16, 24, 32, 48):
+        if n <= b:
+            return "<=%d" % b
+    return ">48"
+
+
+def _run_parallel(cx, lines, workers):
+    """several harness processes; every history runs in its own forked child anyway, so the split does not change results"""
+    if workers <= 1 or len(lines) < 4 * workers:
+        return cx.run_impl(HARNESS, lines, component="life")
+    chunks = [lines[i::workers] for i in range(workers)]
+    cx.harness(HARNESS)     # build once, outside the threads
+    out = {}
+    with concurrent.futures.ThreadPoolExecutor(workers) as ex:
+        for r in ex.map(lambda c: cx.run_impl(HARNESS, c, component="life"), chunks):
+            out.update(r)
+    return out
+
+
+def load_schemas(cx):
+    lines = ["s%d life schema %d" % (i, i) for i in range(NSETS)] + ["y%d life printset %d 1" % (i, i) for i in range(NSETS)]
+    rep = cx.run_impl(HARNESS, lines, component="life")
+    texts, yins, schemas = [], [], []
+    for i in range(NSETS):
+        r, y = rep.get("s%d" % i), rep.get("y%d" % i)
+        if not r or r[0] != "ok" or not y or y[0] != "ok":
+            raise RuntimeError("api_life does not report its built-in schema set %d: %s %s" % (i, r, y))
+        t = [unhex(x).decode() for x in r[1:]]
+        texts.append(t)
+        yins.append([unhex(x).decode() for x in y[1:]])
+        s = Schema(t)
+        schemas.append((s, Values(s)))
+    return texts, yins, schemas
+
+
+def corpus_lines():
+    d = os.path.join(os.path.dirname(os.path.dirname(os.path.dirname(os.path.abspath(__file__)))), "corpus", "life")
+    out = []
+    if os.path.isdir(d):
+        for f in sorted(os.listdir(d)):
+            if f.endswith(".hist"):
+                for l in open(os.path.join(d, f)):
+                    l = l.strip()
+                    if l and not l.startswith("#"):
+                        out.append((f, l))
+    return out
+
+
+def exhaustive_small(gen):
+    """every op family once on each schema set, right after one valid parse (plus the family alone on an empty context)"""
+    out = []
+    for si in range(NSETS):
+        for fam, _ in HistGen.FAMILIES + [("g_schema", 0)]:
+            for pre in (True, False):
+                gen.begin(si, "main")
+                gen.diffslot = 0
+                if pre:
+                    gen.g_parse()
+                    gen.g_parse()
+                if fam == "g_schema":
+                    gen.g_schema(True)
+                else:
+                    getattr(gen, fam)()
+                    getattr(gen, fam)()
+                out.append((si, 4, list(gen.ops), list(gen.kinds), "main"))
+    return out
+
+
+def run_life(cx, workers=None):
+    rng = cx.sub_rng("life")
+    texts, yins, schemas = load_schemas(cx)
+    gen = HistGen(rng, schemas, texts, yins, cx.tier == "thorough")
+    workers = workers or int(os.environ.get("VERIF_LIFE_WORKERS", "3"))
+    cx.rule("life: API histories of 4-40 operations (parse XML/JSON/LYB/operations, lyd_new_*, change, dup, merge, diff, validate, insert, unlink/free, find, print, "
+            "schema loads) on 6 tree slots over 3 built-in schema sets, arguments drawn per leaf type from pools of valid and invalid lexicals, documents built from "
+            "a generated instance tree and corrupted with probability 0.22, each history in a fresh context and a fresh process image; hand seeds (F19, F21, F60 "
+            "witnesses) and every op family on every schema set first; value changes of leaf-list instances / list keys (F19) and lyd_new_path(UPDATE) on any nodes "
+            "(F60) only in separate sub-streams (12% / 4% of the histories); non-trivial = distinct history whose reply reports at least one successful and one "
+            "failing library call")
+
+    hist = []       # (set, ctxopts, ops, kinds, stream)
+    for s in (seed_f19(), seed_f19_key(), seed_f60()):
+        hist.append((s[0], s[1], s[2], ["seed"] * len(s[2]), "seed"))
+    s = seed_f21()
+    hist.append((s[0], s[1], s[2], ["seed"], "seed"))
+    hist += exhaustive_small(gen)
+    n = cx.n(2200, 60000)
+    for i in range(n):
+        x = rng.random()
+        stream = "f19" if x < 0.12 else "f60" if x < 0.16 else "main"
+        si, co, ops, kinds = gen.history(stream)
+        if cx.tier == "thorough" or rng.random() < 0.05:
+            co |= FORCE_LSAN
+        hist.append((si, co, ops, kinds, stream))
+
+    lines = [hist_line(i, h[0], h[1], h[2]) for i, h in enumerate(hist)]
+    extra = corpus_lines()
+    base = len(lines)
+    for j, (f, l) in enumerate(extra):
+        toks = l.split()
+        lines.append(" ".join([str(base + j)] + toks[1:]))
+    cx.sample(lines[0][:300])
+
+    step = 20000
+    for a in range(0, len(lines), step):
+        part = lines[a:a + step]
+        rep = _run_parallel(cx, part, workers)
+        for l in part:
+            i = int(l.split()[0])
+            r = rep.get(str(i), ["err", "NoReply"])
+            clean = evaluate(cx, l, r)
+            d = parse_reply(r)
+            if i < len(hist):
+                si, co, ops, kinds, stream = hist[i]
+            else:
+                ops, kinds, stream = l.split()[5].split(";"), [], "corpus"
+            rcs = d["rc"].split(",") if d and d.get("rc", "-") != "-" else []
+            nontrivial = any(x == "0" for x in rcs) and any(x not in ("0", "-1") for x in rcs)
+            cx.count(("hist", " ".join(l.split()[3:])), nontrivial, "life:hist:%s:%s" % (stream, _bucket(len(ops))))
+            if d is None:
+                cx.dist["life:hist:aborted"] += 1
+            for j, k in enumerate(kinds):
+                rc = rcs[j] if j < len(rcs) else "?"
+                res = "ok" if rc == "0" else "n/a" if rc == "-1" else "aborted" if rc == "?" else "err"
+                cx.count(None, False, "life:op:%s:%s" % (k, res))
+    if len(lines) > 6:
+        cx.sample(lines[len(lines) // 2][:300])
